@@ -9,7 +9,10 @@ import (
 	"bytes"
 	"context"
 	"crypto/ed25519"
+	"encoding/binary"
 	"fmt"
+	"math/big"
+	"sort"
 	"time"
 
 	"github.com/tonkeeper/tongo/boc"
@@ -102,6 +105,82 @@ func c15Wallet(l []sx.V, chain *fakeChain) (wallet.Wallet, error) {
 	return wallet.New(ed25519.NewKeyFromSeed(seed), ver, chain, woptsFromSx(l[2]).options()...)
 }
 
+func bitsOfBytes(b []byte) sx.V { return sx.Bits(hexBits(b)) }
+
+// the library's own decoding of the data cell of an active account:
+// (seqno id pk flag extra (key ...)) | 'err
+func c15DecodeData(ver wallet.Version, st sx.V) sx.V {
+	if st.K != sx.KL {
+		return sx.L()
+	}
+	cell := cellFromSx(st.List[1])
+	keys := func(ks [][]byte) sx.V {
+		var l []sx.V
+		for _, k := range ks {
+			l = append(l, bitsOfBytes(k))
+		}
+		return sx.L(l...)
+	}
+	switch ver {
+	case wallet.V3R1, wallet.V3R2:
+		var d wallet.DataV3
+		if tlb.Unmarshal(cell, &d) != nil {
+			return sx.A("err")
+		}
+		return sx.L(sx.N(uint64(d.Seqno)), sx.N(uint64(d.SubWalletId)), bitsOfBytes(d.PublicKey[:]), sx.B(false), sx.N(0), sx.L())
+	case wallet.V4R1, wallet.V4R2:
+		var d wallet.DataV4
+		if tlb.Unmarshal(cell, &d) != nil {
+			return sx.A("err")
+		}
+		var ks [][]byte
+		for _, k := range d.PluginDict.Keys() {
+			k := k
+			ks = append(ks, k[:])
+		}
+		return sx.L(sx.N(uint64(d.Seqno)), sx.N(uint64(d.SubWalletId)), bitsOfBytes(d.PublicKey[:]), sx.B(false), sx.N(0), keys(ks))
+	case wallet.V5Beta:
+		var d wallet.DataV5Beta
+		if tlb.Unmarshal(cell, &d) != nil {
+			return sx.A("err")
+		}
+		id := new(big.Int).SetUint64(uint64(d.WalletID.NetworkGlobalID))
+		id.Lsh(id, 8).Or(id, big.NewInt(int64(d.WalletID.Workchain)))
+		id.Lsh(id, 8).Or(id, big.NewInt(int64(d.WalletID.WalletVersion)))
+		id.Lsh(id, 32).Or(id, new(big.Int).SetUint64(uint64(d.WalletID.SubWalletID)))
+		var ks [][]byte
+		for _, k := range d.Extensions.Keys() {
+			k := k
+			ks = append(ks, k[:])
+		}
+		return sx.L(sx.N(uint64(d.Seqno)), sx.BigN(id), bitsOfBytes(d.PublicKey[:]), sx.B(false), sx.N(0), keys(ks))
+	case wallet.V5R1:
+		var d wallet.DataV5R1
+		if tlb.Unmarshal(cell, &d) != nil {
+			return sx.A("err")
+		}
+		var ks [][]byte
+		for _, k := range d.Extensions.Keys() {
+			k := k
+			ks = append(ks, k[:])
+		}
+		return sx.L(sx.N(uint64(d.Seqno)), sx.N(uint64(d.WalletID)), bitsOfBytes(d.PublicKey[:]), sx.B(d.IsSignatureAllowed), sx.N(0), keys(ks))
+	case wallet.HighLoadV2R2:
+		var d wallet.DataHighloadV2
+		if tlb.Unmarshal(cell, &d) != nil {
+			return sx.A("err")
+		}
+		var ks [][]byte
+		for _, k := range d.Queries.Keys() {
+			var b [8]byte
+			binary.BigEndian.PutUint64(b[:], uint64(k))
+			ks = append(ks, b[:])
+		}
+		return sx.L(sx.N(0), sx.N(uint64(d.SubWalletId)), bitsOfBytes(d.PublicKey[:]), sx.B(false), sx.N(d.LastCleanedTime), keys(ks))
+	}
+	return sx.A("err")
+}
+
 // (ver pk opts acct seed)
 func execC15Next(in sx.V) sx.V {
 	l := in.List
@@ -117,7 +196,7 @@ func execC15Next(in sx.V) sx.V {
 	if p.Init != nil {
 		init = sx.L(sx.Bytes(mustHash(stateInitCell(p.Init))))
 	}
-	return sx.L(sx.N(uint64(p.Seqno)), init)
+	return sx.L(sx.N(uint64(p.Seqno)), init, c15DecodeData(wallet.Version(l[0].I()), l[3]))
 }
 
 // seqno field of a body, by position
@@ -295,7 +374,125 @@ func c15DataCell(r *prng.R, ver wallet.Version, seqno uint64, flavour int) *boc.
 	return c
 }
 
+// a dictionary serialised from the TL-B schema of Hashmap (independently of tongo's encoder):
+// keys sorted, distinct, all of one width; vals are the value bits; label form random per edge
+func c15Dict(keys, vals []string, done int, r *prng.R) *boc.Cell {
+	n := len(keys[0])
+	m := n - done
+	first, last := keys[0], keys[len(keys)-1]
+	l := 0
+	for done+l < n && first[done+l] == last[done+l] {
+		l++
+	}
+	bits := encLabel(first[done:done+l], m, r.Intn(3))
+	if len(keys) == 1 {
+		return cellWith(bits+vals[0], nil)
+	}
+	split := sort.Search(len(keys), func(i int) bool { return keys[i][done+l] == '1' })
+	left := c15Dict(keys[:split], vals[:split], done+l+1, r)
+	right := c15Dict(keys[split:], vals[split:], done+l+1, r)
+	return cellWith(bits, []*boc.Cell{left, right})
+}
+
+type c15Data struct {
+	seqno uint64
+	id    *big.Int
+	pk    []byte
+	flag  bool
+	extra uint64
+	keys  []string // ascending
+	cell  *boc.Cell
+}
+
+// well-formed on-chain data of a version as the CONTRACT lays it out: any seqno, ids, key, flag and n
+// dictionary entries (v4 plugins: 264-bit keys, empty values; v5 beta extensions: 256 -> 8 bits;
+// v5r1 extensions: 256 -> 1 bit; highload old queries: 64 -> empty)
+func c15WellFormed(r *prng.R, ver wallet.Version, seqno uint64, n int) c15Data {
+	d := c15Data{seqno: seqno, pk: r.Bytes(32), id: new(big.Int)}
+	subs := []uint64{698983191, 698983190, 0, 1, 0xffffffff, 0x80000000, uint64(uint32(r.U64()))}
+	sub := subs[r.Intn(len(subs))]
+	kw, vw := 0, 0
+	var pre string
+	switch ver {
+	case wallet.V3R1, wallet.V3R2:
+		pre = fmt.Sprintf("%032b%032b", seqno, sub) + hexBits(d.pk)
+		d.id.SetUint64(sub)
+		d.cell = cellWith(pre, nil)
+		return d
+	case wallet.V4R1, wallet.V4R2:
+		pre = fmt.Sprintf("%032b%032b", seqno, sub) + hexBits(d.pk)
+		d.id.SetUint64(sub)
+		kw, vw = 264, 0
+	case wallet.V5Beta:
+		wid := r.Bytes(10)
+		pre = fmt.Sprintf("%033b", seqno) + hexBits(wid) + hexBits(d.pk)
+		d.id.SetBytes(wid)
+		kw, vw = 256, 8
+	case wallet.V5R1:
+		d.flag = r.Bool()
+		f := "0"
+		if d.flag {
+			f = "1"
+		}
+		pre = f + fmt.Sprintf("%032b%032b", seqno, sub) + hexBits(d.pk)
+		d.id.SetUint64(sub)
+		kw, vw = 256, 1
+	case wallet.HighLoadV2R2:
+		d.seqno = 0
+		d.extra = r.U64()
+		pre = fmt.Sprintf("%032b%064b", sub, d.extra) + hexBits(d.pk)
+		d.id.SetUint64(sub)
+		kw, vw = 64, 0
+	}
+	if n == 0 {
+		d.cell = cellWith(pre+"0", nil)
+		return d
+	}
+	set := map[string]bool{}
+	base := randBits(r, kw)
+	for len(set) < n {
+		k := randBits(r, kw)
+		if r.Chance(40) { // long common prefix with another key
+			p := kw - 1 - r.Intn(12)
+			k = base[:p] + randBits(r, kw-p)
+		}
+		set[k] = true
+	}
+	for k := range set {
+		d.keys = append(d.keys, k)
+	}
+	sort.Strings(d.keys)
+	var vals []string
+	for range d.keys {
+		v := randBits(r, vw)
+		if vw == 1 {
+			v = "1" // the contract stores int1 -1
+		}
+		vals = append(vals, v)
+	}
+	d.cell = cellWith(pre+"1", []*boc.Cell{c15Dict(d.keys, vals, 0, r)})
+	return d
+}
+
+func (d c15Data) fields() sx.V {
+	var ks []sx.V
+	for _, k := range d.keys {
+		ks = append(ks, sx.Bits(k))
+	}
+	return sx.L(sx.N(d.seqno), sx.BigN(d.id), bitsOfBytes(d.pk), sx.B(d.flag), sx.N(d.extra), sx.L(ks...))
+}
+
+func c15Seqnos(r *prng.R, ver wallet.Version) uint64 {
+	seqs := []uint64{0, 1, 2, 1<<31 - 1, 1 << 31, 1<<32 - 2, 1<<32 - 1, uint64(uint32(r.U64()))}
+	return seqs[r.Intn(len(seqs))]
+}
+
 func acctSx(r *prng.R, ver wallet.Version, kind int) (sx.V, string) {
+	if kind == 3 && int(ver) >= int(wallet.V3R1) && r.Chance(50) {
+		n := r.Intn(4)
+		d := c15WellFormed(r, ver, c15Seqnos(r, ver), n)
+		return sx.L(sx.A("active"), cellToSx(d.cell)), fmt.Sprintf("active-wf%d", n)
+	}
 	switch kind {
 	case 0:
 		return sx.A("none"), "none"
@@ -455,6 +652,33 @@ func genC15(c *Ctx) {
 			}
 		}
 	}
+	// 2b. active accounts holding everything the contract can legitimately store: per version x 0..3 dictionary
+	// entries x seqno boundaries; NextMessageParams must return the stored seqno and no state-init, and the
+	// library's decoding of the data must give back the fields
+	for _, ver := range c14SendVersions {
+		for n := 0; n <= 3; n++ {
+			for rep := 0; rep < c.Scale(2, 10); rep++ {
+				if n > 0 && (ver == wallet.V3R1 || ver == wallet.V3R2) && rep > 0 {
+					continue
+				}
+				seed := c14Seed(r)
+				pk := ed25519.NewKeyFromSeed(seed).Public().(ed25519.PublicKey)
+				d := c15WellFormed(r, ver, c15Seqnos(r, ver), n)
+				in := sx.L(sx.Nat(int(ver)), sx.Bytes(pk), randOpts(r).sx(), sx.L(sx.A("active"), cellToSx(d.cell)), sx.Bytes(seed))
+				out := c.Emit("c15.next", in, fmt.Sprintf("next|v%d|wellformed|entries=%d", int(ver), n))
+				if out.K != sx.KL || len(out.List) != 3 {
+					c.Fail("c15.next", in, "c15-active-data-rejected", fmt.Sprintf("NextMessageParams fails on well-formed data of an active account with %d dictionary entries", n))
+					continue
+				}
+				if out.List[0].U64() != d.seqno || len(out.List[1].List) != 0 {
+					c.Fail("c15.next", in, "c15-active-seqno", "NextMessageParams does not return the stored seqno without state-init for an active account")
+				}
+				if out.List[2].String() != d.fields().String() {
+					c.Fail("c15.next", in, "c15-data-fields", "the decoded data struct differs from the stored fields: "+out.List[2].String()+" / "+d.fields().String())
+				}
+			}
+		}
+	}
 	// 3. SendV2 against scripted histories
 	type hist struct {
 		polls []int64 // >=0 seqno answer, -1 error
@@ -589,6 +813,12 @@ func c15b2i(b bool) int {
 }
 
 func c15Coarse(label string) string {
+	if len(label) > 9 && label[:9] == "active-wf" {
+		if label == "active-wf0" {
+			return "active0"
+		}
+		return "active-dict"
+	}
 	if len(label) > 6 && label[:6] == "active" && label != "active0" {
 		return "active-odd"
 	}
